@@ -79,6 +79,17 @@ register("C12", "exploration",
  "Hypothesis specs x schedules; per run exhaustive prefix and snapshot-position enumeration against a reference fold / round-trip",
  "DESIGN.md section 3 C12")
 
+register("C09", "exploration",
+ "(a) Hypothesis RuleBasedStateMachine over the in-memory duplicate filter (mark_seen / hydrate / reset / maybe_seen, drawn sizes and false-positive rates, arbitrary id strings) against a set model, judged after every step; (b) workflows run with every ack withheld, each handled message redelivered at later points in the same process, after a forced rotation, after a process restart and to a peer worker hydrated earlier, negative-cache option off and on: a message whose processed record is durable must not reach its handler or execute a task, and the outcome equals the redelivery-free run.",
+ "Peer worker modelled by swapping the module-global filter; peer + negative-cache-on excluded (documented single-writer precondition); SQLite only.",
+ "Hypothesis stateful machine vs. set model + generated redelivery histories with handler-invocation oracle",
+ "DESIGN.md section 3 C09")
+register("C19", "exploration",
+ "Hypothesis-built workflows with every persisted field (all enum members, unicode, nested/large JSON, int64 timestamps, 0-4 tasks) are stored and read back (retrieve and retrieve_stage) and compared field by field; then one stage is changed in a drawn subset of fields through a drawn save path (store.store_stage, txn.store_stage, txn.store_stage with expected phase) and the whole workflow is compared with 'before + the changes'; an instance of every message class with drawn field values is pushed through both push paths and delivered, compared field by field, and the two payloads are compared with each other.",
+ "JSON-representable values only; fields the tree never persists are excluded; stage order not asserted; delivery metadata re-assigned by the queue is excluded.",
+ "Hypothesis round-trip / metamorphic update test and differential between the two serialisers",
+ "DESIGN.md section 3 C19")
+
 NOT_APPLICABLE = {}
 
 def main():
